@@ -1,7 +1,7 @@
 //! C06 COBS framing is one well-formed frame and decodes back frame by frame;
 //! C07 COBS decoding of arbitrary bytes is total and matches the definition.
 
-use crate::checks::c03::map_err;
+use crate::checks::c05::{real_decode, real_plain};
 use crate::dynval::{with_shape, Dyn};
 use crate::rt::{hex, set_case, trap, with_arena, Ctx};
 use postcard::ser_flavors::{Cobs, Flavor};
@@ -12,7 +12,7 @@ use std::sync::atomic::{AtomicU64, Ordering};
 use vmodel::codecs::{cobs_decode_frame, cobs_encode, first_frame};
 use vmodel::glue::AsData;
 use vmodel::shape::*;
-use vmodel::spec::{spec_decode, spec_encode, ErrKind};
+
 
 /// a user storage that logs every operation the COBS modifier performs on it
 #[derive(Default)]
@@ -124,10 +124,14 @@ fn encode_all_storages(ctx: &Ctx, s: &Shape, v: &Val, plain: &[u8], order: u64, 
                 // decodes back
                 let mut o2 = o.clone();
                 let r = trap(|| with_shape(s, || postcard::from_bytes_cobs::<Dyn>(&mut o2)));
-                match r {
-                    Ok(Ok(Dyn(got))) if &got == v => {}
-                    other => ctx.violation("cobs-roundtrip", format!("from_bytes_cobs gave {:?}", other), order, case()),
+                // "decodes back": what plain decoding of the plain encoding gives
+                let want = real_decode(s, plain).map(|x| x.0);
+                match (r, want) {
+                    (Ok(Ok(Dyn(got))), Ok(w)) if got == w => {}
+                    (Ok(Err(e)), Err(w)) if e == w => {}
+                    (other, w) => ctx.violation("cobs-roundtrip", format!("from_bytes_cobs gave {:?}, plain decoding gives {:?}", other, w), order, case()),
                 }
+                let _ = v;
             }
         }
         other => ctx.violation("cobs-encode-slice", format!("to_slice_cobs: {:?}", other.map(|r| r.map(|o| o.len()))), order, case()),
@@ -171,7 +175,9 @@ pub fn run_c06(ctx: &Ctx) {
     let nmsgs = msgs.len();
     msgs.par_iter().enumerate().for_each(|(i, m)| {
         let (s, v) = msg_val(m);
-        encode_all_storages(ctx, &s, &v, m, i as u64, &calls);
+        if let Some(plain) = real_plain(&v) {
+            encode_all_storages(ctx, &s, &v, &plain, i as u64, &calls);
+        }
     });
     ctx.class("messages-over-4-symbols", nmsgs as u64);
     // (c) run structures around multiples of 254
@@ -199,8 +205,9 @@ pub fn run_c06(ctx: &Ctx) {
     structured.par_iter().enumerate().for_each(|(i, m)| {
         // as a byte-array value: plain = varint(len) ++ bytes
         let v = Val::Bytes(m.clone());
-        let plain = spec_encode(&v).unwrap();
-        encode_all_storages(ctx, &Shape::Bytes, &v, &plain, (1u64 << 32) | i as u64, &calls);
+        if let Some(plain) = real_plain(&v) {
+            encode_all_storages(ctx, &Shape::Bytes, &v, &plain, (1u64 << 32) | i as u64, &calls);
+        }
     });
     ctx.class("run-structure-messages", nstruct as u64);
     // (b) explicit-state walk of the encoder flavour: from every run length r, every event word
@@ -258,8 +265,11 @@ pub fn run_c06(ctx: &Ctx) {
         Val::Bytes(vec![9; 253]),
         Val::Bytes(vec![0; 10]),
     ];
-    let frames: Vec<Vec<u8>> = pool.iter().map(|v| {
-        let mut f = cobs_encode(&spec_encode(v).unwrap());
+    // frames = reference COBS of the REAL plain encoding; expected values = real plain decoding of it
+    let plains: Vec<Vec<u8>> = pool.iter().map(|v| real_plain(v).unwrap_or_default()).collect();
+    let expect: Vec<Result<Val, postcard::Error>> = plains.iter().map(|p| real_decode(&Shape::Bytes, p).map(|x| x.0)).collect();
+    let frames: Vec<Vec<u8>> = plains.iter().map(|p| {
+        let mut f = cobs_encode(p);
         f.push(0);
         f
     }).collect();
@@ -296,7 +306,7 @@ pub fn run_c06(ctx: &Ctx) {
                         let mut window: &mut [u8] = inp;
                         for (i, f) in seq.iter().enumerate() {
                             let (Dyn(v), rest) = postcard::take_from_bytes_cobs::<Dyn>(window).map_err(|e| format!("frame {i}: {e:?}"))?;
-                            if v != pool[*f] {
+                            if Ok(&v) != expect[*f].as_ref() {
                                 return Err(format!("frame {i}: value {:?}", v));
                             }
                             let off = rest.as_ptr() as usize - base;
@@ -362,7 +372,8 @@ fn c07_targets() -> Vec<Shape> {
 /// one C07 comparison: both entry points on a guarded copy of `x`
 fn c07_case(ctx: &Ctx, s: &Shape, x: &[u8], order: u64, st: &mut [u64; 4]) {
     let (f, had_sentinel, after) = first_frame(x);
-    let want: Result<Result<Val, ErrKind>, ()> = cobs_decode_frame(f).map(|p| spec_decode(s, &p).result.map(|(v, _)| v));
+    // plain decoding (by the real plain decoder) of the reference-COBS-decoded payload of the first frame
+    let want: Result<Result<Val, postcard::Error>, ()> = cobs_decode_frame(f).map(|p| real_decode(s, &p).map(|x| x.0));
     let case = || json!({"target": s, "input": if x.len() > 64 { format!("{} bytes: {} ..", x.len(), hex(&x[..24])) } else { hex(x) }});
     for take in [false, true] {
         for at_end in [true, false] {
@@ -401,7 +412,7 @@ fn c07_case(ctx: &Ctx, s: &Shape, x: &[u8], order: u64, st: &mut [u64; 4]) {
                 (Err(()), Ok((v, _))) => ctx.violation("cobs-ill-formed-accepted", format!("ill-formed COBS accepted as {:?}", v), order, case()),
                 (Ok(Err(k)), Err(e)) => {
                     st[1] += 1;
-                    if *k != ErrKind::Other && map_err(e) != *k {
+                    if e != k {
                         ctx.violation("cobs-payload-error-kind", format!("{:?}, plain decoding of the payload gives {:?}", e, k), order, case());
                     }
                 }
@@ -462,7 +473,7 @@ pub fn run_c07(ctx: &Ctx) {
             if z {
                 m[a / 2] = 0;
             }
-            let plain = spec_encode(&Val::Bytes(m)).unwrap();
+            let plain = real_plain(&Val::Bytes(m)).unwrap_or_default();
             let mut frame = cobs_encode(&plain);
             frame.push(0);
             let step = if ctx.quick() { 1 } else { 1 };
